@@ -7,6 +7,17 @@ import (
 )
 
 func init() {
+	probeGens["C17"] = func(t *rapid.T, g *GenState) string {
+		bz, _ := json.Marshal(GenQueries(t, g))
+		return string(bz)
+	}
+	probes["C17"] = func(ex *Exec, payload string) []Violation {
+		var qs []Query
+		if err := json.Unmarshal([]byte(payload), &qs); err != nil {
+			return nil
+		}
+		return runQueries(ex, qs)
+	}
 	trailers["C17"] = func(t *rapid.T, ex *Exec, g *GenState) ([]Violation, string) {
 		qs := GenQueries(t, g)
 		bz, _ := json.Marshal(qs)
